@@ -232,6 +232,8 @@ struct User {
   std::string csv, sortlist_str;
   int         setter = 3;           // 0 ares_set_servers, 1 ares_set_servers_ports, 2 ares_set_servers_csv, 3 ares_set_servers_ports_csv
   bool        ll_without_iface = false; // a link-local server set through a setter that cannot carry the interface
+  int         csv_from_channel = 0;     // 1: the setter is fed ares_get_servers_csv() of the channel itself (the list already in force),
+                                        // 2: the same servers in reverse order; the reference takes the servers from the system configuration at init
   // ---- semantic view: what was validly supplied (reference side)
   unsigned                 okmask = 0; // option bits expected in the channel's mask
   bool                     s_flags = false, s_timeout = false, s_tries = false, s_ndots = false, s_servers = false, s_domains = false, s_lookups = false, s_sortlist = false;
@@ -569,7 +571,14 @@ static Expect model(const User &u, const Sys &s, int phase, const Sys *prev)
   int ct = u.other.count("tcp_port") ? atoi(u.other.at("tcp_port").c_str()) : 0;
   bool primary = fl & ARES_FLAG_PRIMARY;
   if (u.s_servers) {
-    expect_servers(e.f, u.srv, cu, ct, primary);
+    std::vector<Srv> usrv = u.srv;
+    if (u.csv_from_channel) {
+      // the application named exactly the servers that were in force after initialisation: from then on they are its own
+      Part p0 = effective_sys(prev ? *prev : s, u);
+      usrv    = p0.has_servers ? p0.servers : std::vector<Srv>{ v4("127.0.0.1") };
+      if (u.csv_from_channel == 2) std::reverse(usrv.begin(), usrv.end());
+    }
+    expect_servers(e.f, usrv, cu, ct, primary);
     e.who["servers"] = "user";
   } else if (p.has_servers) {
     expect_servers(e.f, p.servers, cu, ct, primary);
@@ -595,7 +604,6 @@ static Expect model(const User &u, const Sys &s, int phase, const Sys *prev)
   if (u.set_csv) m |= ARES_OPT_SERVERS;
   if (u.set_sortlist) m |= ARES_OPT_SORTLIST;
   put("optmask", hexs(m), "user");
-  (void)prev;
   return e;
 }
 
@@ -742,6 +750,24 @@ static std::vector<Finding> run_scenario(const Scenario &sc, Ctx &cx, const std:
     return fs;
   }
   install_sockfuncs(ch);
+  if (u.set_csv && u.csv_from_channel) {
+    char *cur = ares_get_servers_csv(ch);
+    std::string csv = cur ? cur : "";
+    ares_free_string(cur);
+    if (u.csv_from_channel == 2) {
+      std::vector<std::string> items;
+      size_t                   pos = 0;
+      while (pos <= csv.size()) {
+        size_t e = csv.find(',', pos);
+        items.push_back(csv.substr(pos, e == std::string::npos ? std::string::npos : e - pos));
+        if (e == std::string::npos) break;
+        pos = e + 1;
+      }
+      csv.clear();
+      for (size_t i = items.size(); i-- > 0;) csv += items[i] + (i ? "," : "");
+    }
+    const_cast<User &>(u).csv = csv;
+  }
   if (u.set_csv) {
     int r;
     if (u.setter == 3) r = ares_set_servers_ports_csv(ch, u.csv.c_str());
@@ -1142,14 +1168,14 @@ static Space servers_space()
 }
 
 // userwins: every subset of the overridable settings
-static const int UW_RADIX[] = { 3, 3, 3, 2, 2, 2, 2, 3, 4, 2, 3 }; // servers, sortlist, domains, lookups, ndots, tries, timeout, rotate, flags, sys(2), re(3)
+static const int UW_RADIX[] = { 5, 3, 3, 2, 2, 2, 2, 3, 4, 2, 3 }; // servers, sortlist, domains, lookups, ndots, tries, timeout, rotate, flags, sys(2), re(3)
 static Scenario  userwins_scenario(const std::vector<int> &d)
 {
   Scenario sc;
   sc.sys             = 1 + d[9];
   sc.re              = d[10];
   std::vector<int> k = d;
-  sc.servers_expressible = k[0] != 2;
+  sc.servers_expressible = k[0] != 2 && k[0] != 3 && k[0] != 4;
   sc.build               = [k](User &u) {
     auto add = [&](const std::string &s) { u.desc += (u.desc.empty() ? "" : " + ") + s; };
     if (k[0] == 1) {
@@ -1169,6 +1195,11 @@ static Scenario  userwins_scenario(const std::vector<int> &d)
       u.srv       = { a, v6("2001:db8:16::2") };
       u.s_servers = true;
       add("servers(ares_set_servers_ports_csv)");
+    } else if (k[0] == 3 || k[0] == 4) {
+      u.set_csv          = true;
+      u.csv_from_channel = k[0] == 3 ? 1 : 2;
+      u.s_servers        = true;
+      add(k[0] == 3 ? "servers(setter fed ares_get_servers_csv of the channel)" : "servers(setter fed the channel's own servers in reverse order)");
     }
     if (k[1] == 1) {
       int n = 0;
